@@ -1147,6 +1147,40 @@ func ruleInitDefault(c *Ctx) []Ob {
 			s.check(g.Dominates(tail.Block()) && !ib.Dominates(tail.Block()) || ib == tail.Block() && false || g.Dominates(tail.Block()), "struct-case:both-edges", c.InstrPos(tail), "the nested decode runs with and without an init function", "the nested decode is skipped on one edge of hasInitFunc")
 		}
 	}
+	// whether a struct type declares defaults is probed on a *pointer* to it (InitDefault has a pointer receiver):
+	// the value asserted to the initialiser interface comes from reflect.New(t).Interface()
+	nProbe := 0
+	for _, mf := range c.ModuleFuncs(pkgReflect) {
+		for _, b := range mf.Blocks {
+			for _, ins := range b.Instrs {
+				ta, ok := ins.(*ssa.TypeAssert)
+				if !ok || !strings.HasSuffix(ta.AssertedType.String(), "iInitDefault") {
+					continue
+				}
+				nProbe++
+				fromNew := false
+				if ic, ok := ta.X.(*ssa.Call); ok && ic.Call.StaticCallee() != nil && ic.Call.StaticCallee().Name() == "Interface" && len(ic.Call.Args) == 1 {
+					v := ic.Call.Args[0]
+					if u, ok := v.(*ssa.UnOp); ok { // spilled reflect.Value
+						if al, ok := u.X.(*ssa.Alloc); ok {
+							for _, r := range referrers(al) {
+								if st, ok := r.(*ssa.Store); ok && st.Addr == ssa.Value(al) {
+									v = st.Val
+								}
+							}
+						}
+					}
+					if nc, ok := v.(*ssa.Call); ok && nc.Call.StaticCallee() != nil && nc.Call.StaticCallee().Name() == "New" && fnPkgPath(nc.Call.StaticCallee()) == "reflect" {
+						fromNew = true
+					}
+				}
+				s.check(fromNew, "probe:"+shortFn(mf), c.InstrPos(ta), "the initialiser interface is probed on reflect.New(t).Interface()", "the default-initialiser probe is not made on a pointer obtained from reflect.New: InitDefault has a pointer receiver, so a probe on a struct value (reflect.Zero, Elem) never finds it and decoder-allocated nested structs are no longer default-initialised")
+			}
+		}
+	}
+	if nProbe == 0 {
+		s.bad("probe", "-", "no type assertion to the default-initialiser interface: nested structs would never be default-initialised")
+	}
 	// top level
 	if root := c.SSA[pkgReflect].Func("Decode"); root != nil {
 		var call *ssa.Call
